@@ -28,6 +28,7 @@ import (
 	crand "crypto/rand"
 	"errors"
 	"fmt"
+	"io"
 	"os"
 	"sort"
 	"strings"
@@ -62,6 +63,8 @@ func simLimClientConf(name string) *quic.Config {
 		return &quic.Config{MaxIdleTimeout: 10 * time.Second}
 	case "streams50":
 		return &quic.Config{MaxIncomingStreams: 50}
+	case "streams4":
+		return &quic.Config{MaxIncomingStreams: 4, MaxIncomingUniStreams: 4}
 	}
 	return &quic.Config{}
 }
@@ -154,11 +157,11 @@ func runOneSimLimit(c simLimCase) (fails []monFail, info string) {
 		}()
 		judged := false
 		verdict := func(conn *quic.Conn, phase string) bool {
-			judged = true
 			cause := context.Cause(conn.Context())
 			if cause == nil {
 				return true
 			}
+			judged = true // the end of this connection has been judged
 			var te *quic.TransportError
 			var ie *quic.IdleTimeoutError
 			switch {
@@ -375,6 +378,88 @@ func runOneSimLimit(c simLimCase) (fails []monFail, info string) {
 				mu.Unlock()
 				note("opened %d streams (advertised %d)", opened, want)
 			})
+		case kStreamsUniDone, kStreamsBidiDone:
+			// k streams of the peer are completed first (the peer finishes them, the application reads
+			// them to EOF and, for bidirectional ones, finishes its own direction), so that the client
+			// deletes them and sends MAX_STREAMS; then the peer opens as many streams as it may rely on:
+			// the in-tree server's own bookkeeping = max(advertised initial value, MAX_STREAMS received)
+			const k = 2
+			uni := c.Kind == kStreamsUniDone
+			want := adv.MaxBidiStreams
+			if uni {
+				want = adv.MaxUniStreams
+			}
+			if want < k+1 {
+				note("advertised stream count %d too small for the scenario", want)
+				break
+			}
+			cliDone := make(chan struct{})
+			go func() { // the client's application
+				defer close(cliDone)
+				for i := 0; i < k; i++ {
+					if uni {
+						s, err := conn.AcceptUniStream(ctx)
+						if err != nil {
+							return
+						}
+						io.ReadAll(s)
+					} else {
+						s, err := conn.AcceptStream(ctx)
+						if err != nil {
+							return
+						}
+						io.ReadAll(s)
+						s.Close()
+					}
+				}
+			}()
+			for i := 0; i < k; i++ {
+				if uni {
+					if s, err := sconn.OpenUniStream(); err == nil {
+						s.Write([]byte("done"))
+						s.Close()
+					}
+				} else if s, err := sconn.OpenStream(); err == nil {
+					s.Write([]byte("done"))
+					s.Close()
+					go io.ReadAll(s)
+				}
+			}
+			select {
+			case <-cliDone:
+			case <-time.After(5 * time.Second):
+				note("the client's application did not get the %d finished streams", k)
+			}
+			time.Sleep(time.Second) // MAX_STREAMS reaches the peer
+			if !verdict(conn, "after the peer's first streams were completed") {
+				break
+			}
+			drive(func() {
+				opened := int64(k)
+				for opened < 100000 {
+					var w interface{ Write([]byte) (int, error) }
+					var err error
+					if uni {
+						w, err = sconn.OpenUniStream()
+					} else {
+						w, err = sconn.OpenStream()
+					}
+					if err != nil {
+						break
+					}
+					opened++
+					if _, err := w.Write([]byte{byte(opened)}); err != nil {
+						break
+					}
+				}
+				mu.Lock()
+				openedStreams, wantStreams = opened, opened
+				if opened < want {
+					wantStreams = want
+				}
+				mu.Unlock()
+				note("opened %d streams in total, %d of them completed before (advertised %d)", opened, k, want)
+			})
 		case kCID:
 			waitLimit = 2 * time.Second
 		case kCIDRotate:
@@ -494,6 +579,7 @@ func runOneSimLimit(c simLimCase) (fails []monFail, info string) {
 					e.Router.mu.Unlock()
 					select {
 					case <-conn.Context().Done():
+						judged = true // giving up is expected now, only its time is judged
 						silent := time.Since(e.Start) - lastToClient
 						note("second phase: the client gave up %v after the last packet it was sent (%v)", silent, context.Cause(conn.Context()))
 						if silent < idleExpect-10*time.Millisecond {
@@ -516,7 +602,7 @@ func runOneSimLimit(c simLimCase) (fails []monFail, info string) {
 			note("peer still blocked after %v (slow reader)", waitLimit)
 		}
 		time.Sleep(time.Second)
-		if !judged || context.Cause(conn.Context()) == nil {
+		if !judged {
 			verdict(conn, "after the peer used the limit")
 		}
 		if sc := context.Cause(sconn.Context()); sc != nil {
@@ -630,6 +716,11 @@ func simLimMatrix() []simLimCase {
 	}
 	for _, p := range append(append([]string{}, parrotNames...), "plain") { // F: connection ID rotation at the advertised limit
 		m = append(m, simLimCase{p, kCIDRotate, "default-config"})
+	}
+	for _, p := range append(append([]string{}, parrotNames...), "plain") { // G: the stream counts after completed streams
+		for _, cfg := range []string{"default-config", "streams4"} {
+			m = append(m, simLimCase{p, kStreamsUniDone, cfg}, simLimCase{p, kStreamsBidiDone, cfg})
+		}
 	}
 	for _, k := range kinds { // E: the plain client as a control
 		m = append(m, simLimCase{"plain", k, "default-config"})
